@@ -1,9 +1,12 @@
 /-
 C18 — damaged input is processed in bounded time: the bounds of the overflow machinery do not
-depend on what the (possibly forged) payload size or next-page pointers say.
+depend on what the (possibly forged) payload size or next-page pointers say, and the b-tree walk
+(`Version.get_b_tree_root_page`) constructs no page twice, whatever the child pointers say.
 -/
 import SqliteDissect.Proofs.CellArith
 import SqliteDissect.Proofs.Codec
+import SqliteDissect.Proofs.TreeWalk
+import SqliteDissect.Proofs.TreeWalkDemo
 
 namespace SqliteDissect.Properties.C18
 open SqliteDissect SqliteDissect.Model
@@ -37,5 +40,129 @@ example : (parseOverflowChain (stub fun p => if p = 4 then 0 else p + 1) 2 30).m
 example : parseOverflowChain (stub fun p => if p = 2 then 3 else 2) 2 1000000 =
     .error .parseError := by decide +kernel
 example : calcExpectedOverflow 1000000000000 1024 = some (980392157, 880) := by decide
+
+/-! ### the b-tree walk
+
+`getBTreeRoot` mirrors `Version.get_b_tree_root_page` of the repaired code: the walk shares one set
+of page numbers (`parseBTreeLog`: the set is threaded through the whole recursive construction and
+is returned also when the walk fails; `parseBTreeW` is `parseBTreeLog` with the set erased), and a
+page whose number is already in the set is refused with a parse error.  `getBTreeRootPure` /
+`parseBTree` mirror the code before the repair, where a chain of `d` interior pages whose `k` child
+pointers all name the next page was parsed in `k^d` steps and then accepted. -/
+
+/-- erasing the log of the instrumented walk gives the walk -/
+theorem btree_walk_erase_log (v : VersionIf) (fuel n : Nat) (cls : PageType) (seen : List Nat) :
+    (parseBTreeLog v fuel n cls seen).2 = parseBTreeW v fuel n cls seen := by
+  exact (Proofs.TreeWalk.parseBTreeW_eq v fuel n cls seen).symm
+
+/-- the walk succeeds exactly when the construction without the set does, the pages of the result
+have pairwise distinct numbers, and none of them was in the set the walk started with -/
+theorem btree_walk_iff_pure (v : VersionIf) (fuel n : Nat) (cls : PageType) (seen : List Nat) (ps : List BPage) :
+    parseBTreeW v fuel n cls seen = .ok ps ↔
+      parseBTree v fuel n cls = .ok ps ∧ (ps.map (·.number)).Nodup ∧ ∀ p ∈ ps, p.number ∉ seen := by
+  exact Proofs.TreeWalk.parseBTreeW_iff v fuel n cls seen ps
+
+/-- hence for `get_b_tree_root_page`: the repaired code accepts exactly the b-trees the code
+before the repair accepted in which no page is reached twice, with the same result -/
+theorem btree_root_iff_pure (v : VersionIf) (frames n : Nat) (ps : List BPage) :
+    getBTreeRoot v frames n = .ok ps ↔
+      getBTreeRootPure v frames n = .ok ps ∧ (ps.map (·.number)).Nodup := by
+  exact Proofs.TreeFrame.getBTreeRoot_iff v frames n ps
+
+/-- every b-tree the walk accepts consists of pairwise distinct pages -/
+theorem btree_walk_no_repeat (v : VersionIf) (frames n : Nat) (ps : List BPage)
+    (h : getBTreeRoot v frames n = .ok ps) : (ps.map (·.number)).Nodup := by
+  exact Proofs.TreeFrame.getBTreeRoot_nodup v frames n ps h
+
+/-- the log of page constructions — the set when the walk ends, *whether it succeeded or failed* —
+is the initial set extended by pairwise distinct page numbers: it is duplicate free whenever the
+initial set is, and every logged page is one whose offset the version looks up successfully -/
+theorem btree_walk_log_nodup (v : VersionIf) (fuel n : Nat) (cls : PageType) (seen : List Nat)
+    (hs : seen.Nodup) :
+    (parseBTreeLog v fuel n cls seen).1.Nodup ∧
+    seen <:+ (parseBTreeLog v fuel n cls seen).1 ∧
+    ∀ p ∈ (parseBTreeLog v fuel n cls seen).1, p ∈ seen ∨ (v.pageOffset p).isOk = true := by
+  exact Proofs.TreeWalk.log_nodup v fuel n cls seen hs
+
+/-- when the walk succeeds the log is the initial set extended by exactly the pages of the result -/
+theorem btree_walk_log_of_ok (v : VersionIf) (fuel n : Nat) (cls : PageType) (seen : List Nat) (ps : List BPage)
+    (h : parseBTreeW v fuel n cls seen = .ok ps) :
+    ∃ new, (parseBTreeLog v fuel n cls seen).1 = new ++ seen ∧ new.Perm (ps.map (·.number)) := by
+  exact Proofs.TreeWalk.log_of_ok v fuel n cls seen ps h
+
+/-- **at most `D` page constructions are started** by a walk over a version that looks up the
+offsets of the pages `1 … D` only — whatever the child pointers say, whatever the number of stack
+frames, whether the walk succeeds or fails (before the repair: `k^d` for the chain above) -/
+theorem btree_walk_constructions_le (v : VersionIf) (D : Nat)
+    (hD : ∀ p, (v.pageOffset p).isOk = true → 1 ≤ p ∧ p ≤ D) (fuel n : Nat) (cls : PageType) :
+    (parseBTreeLog v fuel n cls []).1.length ≤ D := by
+  exact Proofs.TreeWalk.constructions_le v D hD fuel n cls
+
+/-- the hypothesis holds of the version interface of a database file with its number of pages … -/
+theorem btree_walk_constructions_le_db (cfg : Config) (ps : Nat) (dsize : DbSize) (f : FileH)
+    (fuel n : Nat) (cls : PageType) :
+    (parseBTreeLog (dbVersionIf cfg ps dsize f) fuel n cls []).1.length ≤ dsize.floor := by
+  exact Proofs.TreeWalk.constructions_le _ _
+    (Proofs.TreeWalk.dbVersionIf_offset_range cfg ps dsize f) fuel n cls
+
+/-- … and of the version interface of a WAL commit record with the database size of its commit frame -/
+theorem btree_walk_constructions_le_wal (strict : Bool) (dbv : VersionIf) (wal : Wal) (number dbSize : Nat)
+    (pvi pfi : List (Nat × Nat)) (ownPages : List Nat) (fuel n : Nat) (cls : PageType) :
+    (parseBTreeLog (walVersionIf strict dbv wal number dbSize pvi pfi ownPages) fuel n cls []).1.length ≤ dbSize := by
+  exact Proofs.TreeWalk.constructions_le _ _
+    (Proofs.TreeWalk.walVersionIf_offset_range strict dbv wal number dbSize pvi pfi ownPages) fuel n cls
+
+/-- a page that is already in the set is refused with a parse error and the set is left as it was -/
+theorem btree_walk_seen_refused (v : VersionIf) (fuel n : Nat) (cls : PageType) (seen : List Nat) (pv off : Nat)
+    (hpv : v.pageVersion n = .ok pv) (hoff : v.pageOffset n = .ok off) (h : n ∈ seen) :
+    parseBTreeLog v (fuel + 1) n cls seen = (seen, .error .parseError) := by
+  exact Proofs.TreeWalk.parseBTreeLog_seen v fuel n cls seen pv off hpv hoff h
+
+/-! non-vacuity: 512-byte pages written by the page writer of Proofs/TreeDemo.lean -/
+
+open Proofs.TreeWalkDemo in
+/-- **a page reached twice is refused.**  Interior page 2 of `dagV` has one cell with left child 3
+and the right-most pointer 3: the repaired code raises a parse error, the code before the repair
+accepted the "tree" and listed leaf 3 twice -/
+theorem dag_refused :
+    getBTreeRoot dagV 5 2 = .error .parseError ∧
+    (getBTreeRootPure dagV 5 2).map (fun t => t.map (·.number)) = .ok [2, 3, 3] := by
+  exact Proofs.TreeWalkDemo.dag_refused
+
+open Proofs.TreeWalkDemo in
+/-- **a page that names itself as a child is refused** with a parse error after one page
+construction, however many stack frames there are; the code before the repair descended until the
+frames ran out (`RecursionError`) -/
+theorem cycle_refused :
+    getBTreeRoot cycV 100 2 = .error .parseError ∧
+    (parseBTreeLog cycV 100 2 .tableInterior []).1 = [2] ∧
+    getBTreeRootPure cycV 100 2 = .error .recursionError := by
+  exact Proofs.TreeWalkDemo.cycle_refused
+
+open Proofs.TreeDemo in
+/-- `btree_walk_no_repeat`, `btree_root_iff_pure`: the laid-out tree of Properties/C01Tree.lean is
+accepted by both, with the pages 2, 4, 3 -/
+example : (getBTreeRoot demoV 5 2).map (fun t => t.map (·.number)) = .ok [2, 4, 3] ∧
+    (getBTreeRootPure demoV 5 2).map (fun t => t.map (·.number)) = .ok [2, 4, 3] := by decide +kernel
+
+open Proofs.TreeDemo in
+/-- `btree_walk_log_of_ok`: the log of that walk, most recent first -/
+example : (parseBTreeLog demoV 5 2 .tableInterior []).1 = [4, 3, 2] := by decide +kernel
+
+open Proofs.TreeWalkDemo in
+/-- `btree_walk_log_nodup` on a failing walk: the refused walk over `dagV` logged pages 2 and 3 once
+each; `btree_walk_constructions_le`: `dagV3` serves the same pages but knows the offsets of pages
+1 … 3 only, as the interface of a 3-page database file does: the hypothesis holds with `D = 3` -/
+example : (parseBTreeLog dagV 5 2 .tableInterior []).1 = [3, 2] ∧
+    (parseBTreeLog dagV3 5 2 .tableInterior []).1 = [3, 2] ∧
+    parseBTreeW dagV3 5 2 .tableInterior [] = .error .parseError ∧
+    (∀ p, (dagV3.pageOffset p).isOk = true → 1 ≤ p ∧ p ≤ 3) :=
+  ⟨Proofs.TreeWalkDemo.dag_log.1, Proofs.TreeWalkDemo.dag_log.2.1, Proofs.TreeWalkDemo.dag_log.2.2,
+    Proofs.TreeWalkDemo.dagV3_range⟩
+
+open Proofs.TreeWalkDemo in
+/-- `btree_walk_seen_refused`: leaf 3 is refused when it is already in the set -/
+example : parseBTreeLog dagV 1 3 .tableLeaf [3, 2] = ([3, 2], .error .parseError) :=
+  btree_walk_seen_refused dagV 0 3 .tableLeaf [3, 2] 0 1024 rfl rfl (by decide)
 
 end SqliteDissect.Properties.C18
